@@ -12,6 +12,7 @@ import (
 	"fmt"
 	"os"
 	"runtime"
+	"runtime/debug"
 	"runtime/pprof"
 	"sort"
 	"strings"
@@ -24,15 +25,16 @@ import (
 
 // replayCase is what a replay artefact holds: the exact source text and the oracle that failed.
 type replayCase struct {
-	Src      string `json:"src"`
-	Oracle   string `json:"oracle"`
-	Detail   string `json:"detail"`
-	Family   string `json:"family"`
-	Shape    string `json:"shape"`
-	Layout   string `json:"layout"`
-	Comment  string `json:"comment,omitempty"`
-	Mutation string `json:"mutation,omitempty"`
-	GoTest   string `json:"go_test"`
+	Src       string   `json:"src"`
+	Oracle    string   `json:"oracle"`
+	Detail    string   `json:"detail"`
+	Family    string   `json:"family"`
+	Shape     string   `json:"shape"`
+	Layout    string   `json:"layout"`
+	Comment   string   `json:"comment,omitempty"`
+	Mutation  string   `json:"mutation,omitempty"`
+	Positions []string `json:"failing_positions,omitempty"` // every (placement, after, before) of the class
+	GoTest    string   `json:"go_test"`
 }
 
 // finding is the smallest failing case seen for one class key.
@@ -41,6 +43,7 @@ type finding struct {
 	size  int
 	rc    replayCase
 	count int64
+	toks  []string // token texts (base failures: used to find the minimal failing shapes)
 }
 
 type collector struct {
@@ -48,17 +51,17 @@ type collector struct {
 	m  map[string]*finding
 }
 
-func (c *collector) add(key string, size int, rc replayCase) {
+func (c *collector) add(key string, size int, rc replayCase, toks ...string) {
 	c.mu.Lock()
 	defer c.mu.Unlock()
 	f := c.m[key]
 	if f == nil {
-		c.m[key] = &finding{key: key, size: size, rc: rc, count: 1}
+		c.m[key] = &finding{key: key, size: size, rc: rc, count: 1, toks: toks}
 		return
 	}
 	f.count++
 	if size < f.size || (size == f.size && rc.Src < f.rc.Src) {
-		f.size, f.rc = size, rc
+		f.size, f.rc, f.toks = size, rc, toks
 	}
 }
 
@@ -69,12 +72,13 @@ type job struct {
 	mutants  bool
 	layouts  []int
 	cLayouts []int // layouts in which comments are inserted
+	pct      bool  // also insert the comment text with a per cent sign (pretty layout)
 }
 
 type counters struct {
 	programs, baseCases, commentCases, commentAccepted, commentRejected int64
-	mutants, mutAccepted, mutRejected, mutIdentity                    int64
-	formattedChanged                                                   int64
+	mutants, mutAccepted, mutRejected, mutIdentity                      int64
+	formattedChanged                                                    int64
 }
 
 var (
@@ -120,6 +124,10 @@ func evalProgram(w int, j job) {
 	atomic.AddInt64(&cnt.programs, 1)
 	shape := j.prog.shape()
 	kinds := j.prog.kinds()
+	texts := make([]string, len(toks)) // token roles: used to find the minimal failing shapes
+	for i, t := range toks {
+		texts[i] = t.Role
+	}
 	sl := slots[w]
 	strict := j.fam != "edge"
 	run := func(what, src string) verdict {
@@ -153,13 +161,17 @@ func evalProgram(w int, j job) {
 			if err != nil {
 				rc.Detail += ": " + firstLine(err.Error())
 			}
-			coll.add("valid-rejected|"+kinds+"|"+shape, len(toks), rc)
+			coll.add("valid-rejected|"+kinds+"|"+shape, len(toks), rc, texts...)
 			baseFails[lay]["valid-rejected"] = true
 		}
 		for _, f := range v.Fails {
 			baseFails[lay][f.Oracle] = true
 			rc := replayCase{Src: src, Oracle: f.Oracle, Detail: f.Detail, Family: j.fam, Shape: shape, Layout: layoutNames[lay], GoTest: goTest(src)}
-			coll.add("base|"+f.Oracle+"|"+j.fam+"|"+layoutNames[lay]+"|"+kinds+"|"+shape, len(toks), rc)
+			if j.fam == "values" {
+				coll.add("values|"+f.Oracle+"|"+shape, len(toks), rc)
+				continue
+			}
+			coll.add("base|"+f.Oracle+"|"+j.fam+"|"+layoutNames[lay]+"|"+kinds+"|"+shape, len(toks), rc, texts...)
 		}
 		if rep.WantSample() && len(j.prog.Stmts) >= 2 {
 			rep.Sample(map[string]string{"family": j.fam, "source": src, "formatted": v.Formatted})
@@ -179,29 +191,48 @@ func evalProgram(w int, j job) {
 					}
 				}
 				for k := ckOwnLine; k < ckEnd; k++ {
-					ins := insertion{At: at, Kind: k}
-					if !applicable(toks, lay, ins) {
-						continue
-					}
-					src := render(toks, lay, &ins)
-					v := run("comment", src)
-					atomic.AddInt64(&cnt.commentCases, 1)
-					rep.Eval(1)
-					if !v.Accepted && len(v.Fails) == 0 {
-						atomic.AddInt64(&cnt.commentRejected, 1)
-						rep.Count("comment_rejected_by_parser:"+ckNames[k]+"|after="+roleAt(toks, at-1)+"|before="+roleAt(toks, at), 1)
-						continue
-					}
-					atomic.AddInt64(&cnt.commentAccepted, 1)
-					rep.Nontrivial("comment|" + src)
-					for _, f := range v.Fails {
-						if baseFails[lay][f.Oracle] {
-							continue // the program fails this oracle without any comment: reported there
+					plainFails := map[string]bool{}
+					for _, pct := range []bool{false, true} {
+						if pct && !(j.pct && lay == layPretty) {
+							continue
 						}
-						ctx := ckNames[k] + "|after=" + roleAt(toks, at-1) + "|before=" + roleAt(toks, at)
-						rc := replayCase{Src: src, Oracle: f.Oracle, Detail: f.Detail, Family: j.fam, Shape: shape, Layout: layoutNames[lay],
-							Comment: fmt.Sprintf("%s at boundary %d (after %s, before %s)", ckNames[k], at, roleAt(toks, at-1), roleAt(toks, at)), GoTest: goTest(src)}
-						coll.add("comment|"+f.Oracle+"|"+ctx, len(toks), rc)
+						ins := insertion{At: at, Kind: k, Pct: pct}
+						if !applicable(toks, lay, ins) {
+							continue
+						}
+						src := render(toks, lay, &ins)
+						v := run("comment", src)
+						atomic.AddInt64(&cnt.commentCases, 1)
+						rep.Eval(1)
+						if !v.Accepted && len(v.Fails) == 0 {
+							atomic.AddInt64(&cnt.commentRejected, 1)
+							if !pct {
+								rep.Count("comment_rejected_by_parser:"+ckNames[k]+"|after="+roleAt(toks, at-1)+"|before="+roleAt(toks, at), 1)
+							}
+							continue
+						}
+						atomic.AddInt64(&cnt.commentAccepted, 1)
+						rep.Nontrivial("comment|" + src)
+						for _, f := range v.Fails {
+							if baseFails[lay][f.Oracle] {
+								continue // the program fails this oracle without any comment: reported there
+							}
+							ctx := ckNames[k] + "|after=" + roleAt(toks, at-1) + "|before=" + roleAt(toks, at)
+							rc := replayCase{Src: src, Oracle: f.Oracle, Detail: f.Detail, Family: j.fam, Shape: shape, Layout: layoutNames[lay],
+								Comment: fmt.Sprintf("%s at boundary %d (after %s, before %s)", ckNames[k], at, roleAt(toks, at-1), roleAt(toks, at)), GoTest: goTest(src)}
+							if pct {
+								// only what the per cent sign adds to the plain comment at the same place
+								if !plainFails[f.Oracle] {
+									coll.add("pct|"+f.Oracle+"|"+ctx, len(toks), rc)
+								}
+								continue
+							}
+							plainFails[f.Oracle] = true
+							if f.Oracle == "comment-lost" {
+								plainFails["comment-changed"] = true // a comment that is dropped cannot be mangled
+							}
+							coll.add("comment|"+f.Oracle+"|"+ctx, len(toks), rc)
+						}
 					}
 				}
 			}
@@ -240,7 +271,7 @@ func evalProgram(w int, j job) {
 					mdesc := fmt.Sprintf("%s token %d (%s %q) of %q", mk, at, ps[at].Type.String(), ps[at].Text, src)
 					rc := replayCase{Src: msrc, Oracle: f.Oracle, Detail: f.Detail, Family: j.fam, Shape: shape, Layout: "pretty", Mutation: mdesc, GoTest: goTest(msrc)}
 					switch f.Oracle {
-					case "scan-panic", "parse-panic", "format-panic":
+					case "scan-panic", "scan-no-eof", "parse-panic", "format-panic":
 						coll.add("crash|"+f.Oracle+"|"+f.Detail, len(ps), rc)
 					case "parse-nil-no-error":
 						coll.add("crash|"+f.Oracle+"|"+ctx, len(ps), rc)
@@ -299,6 +330,11 @@ func main() {
 		return
 	}
 
+	// the code under test allocates heavily (a strings.Replacer per white-space trim); the live heap
+	// is tiny, so collect by memory limit instead of by growth ratio
+	debug.SetGCPercent(-1)
+	debug.SetMemoryLimit(3 << 30)
+
 	// ---- job list (simplest first) ----
 	var jobs []job
 	inner := familyInner()
@@ -306,12 +342,16 @@ func main() {
 	both := []int{layPretty, layCompact}
 	for _, s := range inner {
 		j := job{fam: "inner", prog: program{Family: "inner", Stmts: []stmt{s}}, comments: 2, mutants: true, layouts: both, cLayouts: both}
+		j.pct = maxUnit(s) <= 1
 		if !cfg.Thorough() && maxUnit(s) >= 2 {
 			// statements with two fields / routes / type expressions: their inner boundaries are covered by the
 			// one-unit statements; quick inserts comments only around the junctions between units
 			j.comments = 1
 		}
 		jobs = append(jobs, j)
+	}
+	for _, s := range valueStmts() {
+		jobs = append(jobs, job{fam: "values", prog: program{Family: "values", Stmts: []stmt{s}}, layouts: both})
 	}
 	for _, s := range edgeStmts() {
 		jobs = append(jobs, job{fam: "edge", prog: program{Family: "edge", Stmts: []stmt{s}}, comments: 2, mutants: true, layouts: both, cLayouts: both})
@@ -327,13 +367,11 @@ func main() {
 	for _, p := range seqPrograms(alpha, seqLen) {
 		j := job{fam: "seq", prog: p, mutants: true, layouts: both, cLayouts: []int{layPretty}}
 		switch {
-		case len(p.Stmts) == 1:
-			continue // every alphabet statement is also in the inner family? not necessarily: keep them
-		case len(p.Stmts) == 2:
+		case len(p.Stmts) <= 2:
 			j.comments = 2
 			j.cLayouts = both
 		case len(p.Stmts) == 3:
-			j.comments = 1
+			j.comments = 1 // junction boundaries only; every boundary in the thorough tier
 			if cfg.Thorough() {
 				j.comments = 2
 			}
@@ -342,9 +380,6 @@ func main() {
 			j.mutants = false
 		}
 		jobs = append(jobs, j)
-	}
-	for _, s := range alpha {
-		jobs = append(jobs, job{fam: "seq", prog: program{Family: "seq", Stmts: []stmt{s}}, comments: 2, mutants: true, layouts: both, cLayouts: both})
 	}
 	if *maxToks > 0 {
 		var keep []job
@@ -469,7 +504,7 @@ func finish(nInner, nAlpha, seqLen int, dump bool) {
 			fmt.Printf("RAW %6d size=%3d %s\n      src=%q\n      %s\n", f.count, f.size, f.key, f.rc.Src, f.rc.Detail)
 		}
 	}
-	for _, f := range classify(fs) {
+	for _, f := range orderUnknownFirst(classify(fs), cfg.Findings) {
 		rep.Violation(f.key, fmt.Sprintf("%s: %s | source %q", f.rc.Oracle, clip(f.rc.Detail, 300), f.rc.Src), f.rc)
 		rep.Count("failing_cases:"+f.key, int(f.count))
 	}
